@@ -377,24 +377,61 @@ def Good (env : Env) (p : Bool) (all pre : List Field) (acc : List (String × Va
 theorem mem_keys_of_mem {acc : List (String × Val)} {kv : String × Val} (h : kv ∈ acc) : kv.1 ∈ acc.map (·.1) :=
   List.mem_map_of_mem h
 
-theorem applyFields_good (env : Env) (p : Bool) (all : List Field)
-    (hd : distinctKeys (fieldKeySpecs all) = true) (hI : ∀ f ∈ all, Idem env p f.value) :
+theorem lookup_mem (kvs : List (String × Val)) (k : String) (v : Val) (h : lookup kvs k = some v) :
+    (k, v) ∈ kvs := by
+  unfold lookup at h
+  cases hf : kvs.find? (fun kv => kv.1 == k) with
+  | none => simp [hf] at h
+  | some kv =>
+    simp only [hf, Option.map_some, Option.some.injEq] at h
+    have h1 := List.mem_of_find?_eq_some hf
+    have h2 := List.find?_some hf
+    simp only [beq_iff_eq] at h2
+    obtain ⟨a, b⟩ := kv
+    simp only at h h2
+    subst h; subst h2
+    exact h1
+
+/-- Idempotence of `apply` relative to a predicate on values that `apply` preserves (e.g. "every
+dict inside has distinct keys"). -/
+def IdemOn (Q : Val → Prop) (env : Env) (p : Bool) (s : Spec) : Prop :=
+  ∀ v v', Q v → apply env s p v = .ok v' → apply env s p v' = .ok v' ∧ Q v'
+
+theorem idemOn_true (env : Env) (p : Bool) (s : Spec) (h : Idem env p s) : IdemOn (fun _ => True) env p s :=
+  fun v v' _ hv => ⟨h v v' hv, trivial⟩
+
+theorem applyFields_goodQ (Q : Val → Prop) (env : Env) (p : Bool) (all : List Field)
+    (hd : distinctKeys (fieldKeySpecs all) = true) (hI : ∀ f ∈ all, IdemOn Q env p f.value)
+    (hQd : ∀ f ∈ all, Q f.value.flags.default) :
     ∀ (fs pre : List Field) (acc out : List (String × Val)), all = pre ++ fs →
       applyFields env fs (constKeys all) (nonConstKeySpecs pre) p acc = .ok out →
-      Good env p all pre acc → Good env p all all out := by
+      Good env p all pre acc → (∀ kv ∈ acc, Q kv.2) →
+      Good env p all all out ∧ (∀ kv ∈ out, Q kv.2) := by
   intro fs
   induction fs with
   | nil =>
-    intro pre acc out hall h hg
+    intro pre acc out hall h hg hq
     simp only [applyFields] at h
     injection h with h
     subst h
     simp only [List.append_nil] at hall
     subst hall
-    exact hg
+    exact ⟨hg, hq⟩
   | cons f rest ih =>
-    intro pre acc out hall h hg
+    intro pre acc out hall h hg hq
     obtain ⟨ks, spec⟩ := f
+    have hQv : ∀ k, Q (valueOrDefault acc k spec.flags.default) := by
+      intro k
+      have hdq := hQd (Field.mk ks spec) (by rw [hall]; simp)
+      simp only [Field.value] at hdq
+      unfold valueOrDefault
+      cases hl : lookup acc k with
+      | none => exact hdq
+      | some x =>
+        simp only []
+        split
+        · exact hdq
+        · exact hq (k, x) (lookup_mem acc k x hl)
     obtain ⟨g1, g2, g3, g4, g5⟩ := hg
     rw [applyFields] at h
     simp only [bind, Except.bind] at h
@@ -444,7 +481,7 @@ theorem applyFields_good (env : Env) (p : Bool) (all : List Field)
         cases ks <;> simp [KeySpec.isConst]
       have hall' : all = (pre ++ [Field.mk ks spec]) ++ rest := by
         rw [hall]; simp
-      refine ih (pre ++ [Field.mk ks spec]) _ out hall' (by rw [hpre']; exact h) ⟨?_, ?_, ?_, ?_, ?_⟩
+      refine ih (pre ++ [Field.mk ks spec]) _ out hall' (by rw [hpre']; exact h) ⟨?_, ?_, ?_, ?_, ?_⟩ ?_
       · exact nodup_setKeys _ _ g1
       · intro kv hkv
         rcases mem_setKeys _ _ g1 kv hkv with hk | ⟨hk, _⟩
@@ -460,7 +497,7 @@ theorem applyFields_good (env : Env) (p : Bool) (all : List Field)
           injection hf' with hf'
           subst hf'
           have := hz1 kv hk
-          exact hI _ (by rw [hall]; simp) _ _ this
+          exact (hI (Field.mk ks spec) (by rw [hall]; simp) _ _ (hQv kv.1) this).1
         · simp only [List.mem_append, List.mem_singleton] at hmem
           by_cases hin : f' ∈ pre
           · exact g3 kv hk f' hf' hin
@@ -507,6 +544,20 @@ theorem applyFields_good (env : Env) (p : Bool) (all : List Field)
               have := hconv hin kv.1 (mem_keys_of_mem hk) hf'
               rw [← hz2] at this
               exact absurd this hnk
+      · intro kv hkv
+        rcases mem_setKeys _ _ g1 kv hkv with hk | ⟨hk, _⟩
+        · have := hz1 kv hk
+          exact (hI (Field.mk ks spec) (by rw [hall]; simp) _ _ (hQv kv.1) this).2
+        · exact hq kv hk
+
+theorem applyFields_good (env : Env) (p : Bool) (all : List Field)
+    (hd : distinctKeys (fieldKeySpecs all) = true) (hI : ∀ f ∈ all, Idem env p f.value) :
+    ∀ (fs pre : List Field) (acc out : List (String × Val)), all = pre ++ fs →
+      applyFields env fs (constKeys all) (nonConstKeySpecs pre) p acc = .ok out →
+      Good env p all pre acc → Good env p all all out :=
+  fun fs pre acc out hall h hg =>
+    (applyFields_goodQ (fun _ => True) env p all hd (fun f hf => idemOn_true env p _ (hI f hf))
+      (fun _ _ => trivial) fs pre acc out hall h hg (fun _ _ => trivial)).1
 
 /-- `Schema.apply` yields a conforming dict: only declared keys, every value a fixed point of its
 field's spec, every const key present — for every schema with distinct keys whose field specs have
@@ -580,21 +631,6 @@ theorem setKeys_same (kvs : List (String × Val)) (ps : List (String × Val))
     simp only [setKeys]
     rw [setKey_same kvs k v (h (k, v) List.mem_cons_self)]
     exact ih (fun kv hkv => h kv (List.mem_cons_of_mem _ hkv))
-
-theorem lookup_mem (kvs : List (String × Val)) (k : String) (v : Val) (h : lookup kvs k = some v) :
-    (k, v) ∈ kvs := by
-  unfold lookup at h
-  cases hf : kvs.find? (fun kv => kv.1 == k) with
-  | none => simp [hf] at h
-  | some kv =>
-    simp only [hf, Option.map_some, Option.some.injEq] at h
-    have h1 := List.mem_of_find?_eq_some hf
-    have h2 := List.find?_some hf
-    simp only [beq_iff_eq] at h2
-    obtain ⟨a, b⟩ := kv
-    simp only at h h2
-    subst h; subst h2
-    exact h1
 
 theorem lookup_of_mem_keys (kvs : List (String × Val)) (k : String) (h : k ∈ kvs.map (·.1)) :
     ∃ v, lookup kvs k = some v := by
@@ -793,5 +829,68 @@ theorem schemaApply_idem (env : Env) (p : Bool) (fields : List Field)
     (h : schemaApply env fields p kvs = .ok out) : schemaApply env fields p out = .ok out :=
   schemaApply_fixed env p fields out hd (schemaApply_conforms env p fields hd hI kvs out hnd h)
     (schemaApply_nostale env p fields hd hI hM kvs out hnd h)
+
+theorem good_start (env : Env) (p : Bool) (fields : List Field) (kvs : List (String × Val))
+    (hnd : (kvs.map (·.1)).Nodup) (hu' : unmatchedKeys env fields kvs = []) : Good env p fields [] kvs := by
+  refine ⟨hnd, ?_, ?_, ?_, ?_⟩
+  · intro kv hkv
+    have hk : kv.1 ∉ unmatchedKeys env fields kvs := by rw [hu']; simp
+    simp only [unmatchedKeys, List.mem_filter, not_and, Bool.and_eq_true, Bool.not_eq_true'] at hk
+    have := hk (List.mem_map_of_mem hkv)
+    rw [getField_eq]
+    by_cases hc : kv.1 ∈ constKeys fields
+    · have := find_const_some fields kv.1 hc
+      cases hf : fields.find? (isConstOf kv.1) with
+      | some g => rfl
+      | none => simp [hf] at this
+    · rw [find_const_none _ _ hc]
+      simp only []
+      have h2 := this (by simpa using hc)
+      rw [any_nonconst] at h2
+      simp only [Bool.not_eq_false] at h2
+      rw [List.any_eq_true] at h2
+      obtain ⟨g, hg, hP⟩ := h2
+      cases hf : fields.find? (isDynOf env kv.1) with
+      | some g' => rfl
+      | none =>
+        rw [List.find?_eq_none] at hf
+        exact absurd hP (by simpa using hf g hg)
+  · intro kv _ f _ hf; cases hf
+  · intro k hk; simp [constKeys] at hk
+  · intro _ kv _ _ f _ hf; cases hf
+
+/-- `Schema.apply` relative to a value predicate `Q` that the field specs preserve: the output keys
+are distinct, the output conforms, has no stale `MISSING_VALUE`, and every value satisfies `Q`. -/
+theorem schemaApply_goodQ (Q : Val → Prop) (env : Env) (p : Bool) (fields : List Field)
+    (hd : distinctKeys (fieldKeySpecs fields) = true) (hI : ∀ f ∈ fields, IdemOn Q env p f.value)
+    (hQd : ∀ f ∈ fields, Q f.value.flags.default) (hM : ∀ f ∈ fields, MissingOK env p f.value)
+    (kvs out : List (String × Val)) (hnd : (kvs.map (·.1)).Nodup) (hq : ∀ kv ∈ kvs, Q kv.2)
+    (h : schemaApply env fields p kvs = .ok out) :
+    (out.map (·.1)).Nodup ∧ ConformsD env p ⟨fields, out⟩ ∧ NoStaleMissing env p ⟨fields, out⟩ ∧
+      (∀ kv ∈ out, Q kv.2) := by
+  unfold schemaApply at h
+  split at h
+  · cases h
+  · rename_i hu
+    have hu' : unmatchedKeys env fields kvs = [] := by simpa using hu
+    have hstart := good_start env p fields kvs hnd hu'
+    obtain ⟨⟨g1, g2, g3, g4, g5⟩, gq⟩ :=
+      applyFields_goodQ Q env p fields hd hI hQd fields [] kvs out (by simp) h hstart hq
+    refine ⟨g1, ⟨?_, g4⟩, ?_, gq⟩
+    · intro kv hkv
+      cases hf : getField env fields kv.1 with
+      | none => have := g2 kv hkv; simp [hf] at this
+      | some f => exact ⟨f, rfl, g3 kv hkv f hf (getField_mem env fields kv.1 f hf)⟩
+    · intro kv hkv hmiss f hf
+      exact g5 hM kv hkv hmiss f hf (getField_mem env fields kv.1 f hf)
+
+theorem schemaApply_idemQ (Q : Val → Prop) (env : Env) (p : Bool) (fields : List Field)
+    (hd : distinctKeys (fieldKeySpecs fields) = true) (hI : ∀ f ∈ fields, IdemOn Q env p f.value)
+    (hQd : ∀ f ∈ fields, Q f.value.flags.default) (hM : ∀ f ∈ fields, MissingOK env p f.value)
+    (kvs out : List (String × Val)) (hnd : (kvs.map (·.1)).Nodup) (hq : ∀ kv ∈ kvs, Q kv.2)
+    (h : schemaApply env fields p kvs = .ok out) :
+    schemaApply env fields p out = .ok out ∧ (out.map (·.1)).Nodup ∧ (∀ kv ∈ out, Q kv.2) := by
+  obtain ⟨g1, hc, hs, gq⟩ := schemaApply_goodQ Q env p fields hd hI hQd hM kvs out hnd hq h
+  exact ⟨schemaApply_fixed env p fields out hd hc hs, g1, gq⟩
 
 end Pg.C03
